@@ -8,6 +8,7 @@ import (
 	"sort"
 	"strconv"
 	"strings"
+	"syscall"
 	"time"
 
 	"github.com/dop251/goja"
@@ -243,6 +244,17 @@ function __fresh(){ __buf = Buffer.from([1,2,3,4,5,6,7,8,9,10]); __url = new URL
 	}
 	for _, nm := range reqNames {
 		sweep = append(sweep, [2]string{"require", "require(" + nm + ")"})
+	}
+	// names of things that are not regular files (the default source loader reads from the host's file system): a FIFO that
+	// nobody writes to - reading it never ends, like a device that never reports end-of-file, but without filling the memory
+	if dir, err := os.MkdirTemp("", "c09fifo"); err == nil {
+		defer os.RemoveAll(dir)
+		fifo := dir + "/pipe.js"
+		if syscall.Mkfifo(fifo, 0o600) == nil {
+			for _, nm := range []string{fifo, dir + "/pipe", dir} {
+				sweep = append(sweep, [2]string{"require", "require(" + strconv.Quote(nm) + ")"})
+			}
+		}
 	}
 	for _, sw := range sweep {
 		if hangs >= 3 {
